@@ -846,6 +846,30 @@ def k4(ck: Check) -> None:
                 UF = n.targets[0].value.id
     if UF is None:
         raise AnalysisError("anchor vanished: table of update functions in run_simulation_minification")
+    # the table pairs the symbolic variable of v with the update function of v. Written by position,
+    # `{S[i]: G.mk_update_function(N[i]) for i in range(len(N))}`, that holds when S was filled by one pass over the same
+    # list N, in its order
+    for n in own_walk(f.node):
+        if isinstance(n, ast.Assign) and isinstance(n.targets[0], ast.Name) and n.targets[0].id == UF and isinstance(n.value, ast.DictComp):
+            dc = n.value
+            g_ = dc.generators[0]
+            if isinstance(dc.key, ast.Subscript) and isinstance(dc.key.value, ast.Name) and isinstance(dc.value, ast.Call) and dc.value.args \
+                    and isinstance(dc.value.args[0], ast.Subscript) and isinstance(dc.value.args[0].value, ast.Name) \
+                    and text(dc.key.slice) == text(dc.value.args[0].slice) == text(g_.target):
+                S_, N_ = dc.key.value.id, dc.value.args[0].value.id
+                apps = [c_ for c_ in own_walk(f.node) if isinstance(c_, ast.Call) and isinstance(c_.func, ast.Attribute)
+                        and c_.func.attr == "append" and text(c_.func.value) == S_]
+                okp = bool(apps)
+                why_ = ""
+                for c_ in apps:
+                    lps_ = [l_ for l_ in fm.cfg.enclosing_loops(fm.cfgn(c_)) if isinstance(l_, ast.For)]
+                    if not lps_ or text(lps_[0].iter) != N_:
+                        okp = False
+                        why_ = f"`{S_}` is filled by a loop over `{text(lps_[0].iter)[:50] if lps_ else '?'}`, the table reads `{N_}[i]`"
+                ck.ob("K4", fm, n, okp, "symbolic variables and update functions are paired by one pass over the same list" if okp else
+                      f"the table pairs `{S_}[i]` with the update function of `{N_}[i]`, but {why_ or 'the two lists are not built in step'}: "
+                      f"when the two orders differ a symbolic variable gets the update function of another variable, the walk leaves "
+                      f"the transition graph and candidates are dropped wrongly", key="update-function table pairing")
     walks = {text(c_.args[0]) for c_ in own_walk(f.node) if isinstance(c_, ast.Call) and isinstance(c_.func, ast.Subscript)
              and text(c_.func.value) == UF and len(c_.args) == 1}
     n_steps = 0
